@@ -132,6 +132,12 @@ def features():
         {'name': 'NestedChunk', 'body': [F('id', 'char'), CH(F('d', 'Delims'), BR, F('after', 'string'))]},
         {'name': 'CaseChunked', 'body': [F('k', 'Kind'), CH(SW('k', CASE('A', F('name', 'string'), BR, F('n', 'char')), CASE('B', A('vals', 'short', delimited='true'))), F('end', 'char', optional='true'))]},
         {'name': 'OnlyDummy', 'body': [D('short', '5')]},
+        # syntactic nesting of chunked sections (directly, and inside a case of a switch that sits in a chunked section): the inner end
+        # must not switch the mode off for the rest of the outer section
+        {'name': 'NestedSections', 'body': [F('id', 'char'), CH(F('a', 'string'), BR, CH(F('b', 'char'), BR, F('b2', 'string')), BR, F('c', 'string'), BR, F('d', 'byte'), F('e', 'string'))]},
+        {'name': 'CaseSection', 'body': [CH(F('k', 'Kind'), SW('k', CASE('A', CH(F('x', 'string'), BR, F('y', 'char')))), BR, F('after', 'string'), BR, F('z', 'byte'), F('tail', 'string'))]},
+        # two sibling chunked sections in one class
+        {'name': 'TwoSections', 'body': [F('id', 'char'), CH(F('a', 'string'), BR, F('n', 'char')), F('mid', 'short'), CH(F('b', 'string'))]},
         {'name': 'ArrOfArr', 'body': [L('rows_count', 'char'), A('rows', 'Rest', length='rows_count')] if False else [L('rows_count', 'char'), A('rows', 'Named', length='rows_count')]},
         {'name': 'LenOpt', 'body': [F('id', 'char'), L('t_len', 'char', optional='true'), F('t', 'string', length='t_len', optional='true')]},
         {'name': 'ByteFields', 'body': [F('b', 'byte'), A('bs', 'byte', length='3'), F('t', 'three'), F('i', 'int')]},
